@@ -411,7 +411,9 @@ func checkC12(prop, tier string) int {
 		}
 	}
 	pool := NewPool()
+	pool.Deadline = time.Now().Add(g4Deadline(tier))
 	results := pool.Run(jobs)
+	skippedByDeadline := countSkipped(results)
 	var tot c12Res
 	tot.Outcomes = map[string]int{}
 	infra := 0
@@ -464,7 +466,8 @@ func checkC12(prop, tier string) int {
 			"distinct_nontrivial":           len(tot.Outcomes),
 			"rule":                          "every sequence of 1..R persistence rounds over a 6-round alphabet (top-level and child-collection writes and deletes, a nested child collection, a child collection deleted and recreated within one round) x every revert target of the walk (including none) x 4 continuations (reopen; one more round then reopen; walk again; revert again), on the real store under the controlled scheduler; the walk must yield exactly the contents exposed after each round since the last compaction, newest first, then nil; after a revert: current == target, the directory a power cut right after the revert would leave (every unsynced write lost; synchronous configurations) opens to the target, reopen == target, next round builds on it; walks after a revert use the relaxed oracle of DESIGN.md 4.12",
 			"samples":                       samples,
-			"exhaustive":                    infra == 0,
+			"exhaustive":                    infra == 0 && skippedByDeadline == 0,
+			"cap_hit":                       fmt.Sprintf("%d of %d jobs skipped by the deadline of %v", skippedByDeadline, len(jobs), g4Deadline(tier)),
 			"max_rounds":                    maxR,
 			"sequences":                     len(seqs),
 			"walks":                         tot.Walks,
